@@ -13,7 +13,7 @@ def configs(ctx):
     if not ctx.quick:
         specs = specs + fam.small_dag_specs(4)
     cfgs = [Config(s, h, w, (), batch) for s in specs for (h, w) in shapes]
-    return fam.quick_filter(cfgs) if ctx.quick else cfgs
+    return (fam.quick_filter(cfgs) if ctx.quick else cfgs) + fam.wide_configs(ctx.quick)
 
 
 def run(ctx):
